@@ -48,6 +48,7 @@ BaseC == <<
   U("WATER"), U("OIL"),
   U("EQLDIMS"), <<SL>>,
   U("TABDIMS"), <<St(3), SL>>,
+  U("TITLE"), <<TTL(1)>>,          \* (a title after a record that ends in defaults)
   U("EQUIL"), <<D(1), D(2), SL>>,
   U("SWOF"), <<D(4), I(0), I(1), I(0), SL>>,
   U("UDQ"), <<R("DEFINE"), B("FUX"), R("FOPR"), R("/"), R("FWPR"), SL>>, <<SL>>,
